@@ -117,13 +117,14 @@ func readHeader(reader io.ReaderAt) (map[[2]byte]uint64, map[string]string, int6
 	if err != nil {
 		return nil, nil, 0, fmt.Errorf("failed to read header size: %w", err)
 	}
-	// read header bytes:
-	headerBuf := make([]byte, headerSize)
-	if _, err := reader.ReadAt(headerBuf, 4); err != nil {
+	// read header bytes; the size comes from the file, so the buffer grows with what is actually
+	// there instead of being allocated up front:
+	var headerBuf bytes.Buffer
+	if _, err := io.CopyN(&headerBuf, io.NewSectionReader(reader, 4, headerSize), headerSize); err != nil {
 		return nil, nil, 0, fmt.Errorf("failed to read header bytes: %w", err)
 	}
 	// decode header:
-	decoder := bin.NewBorshDecoder(headerBuf)
+	decoder := bin.NewBorshDecoder(headerBuf.Bytes())
 
 	// magic:
 	{
@@ -152,7 +153,8 @@ func readHeader(reader io.ReaderAt) (map[[2]byte]uint64, map[string]string, int6
 		if err != nil {
 			return nil, nil, 0, fmt.Errorf("failed to read numMeta: %w", err)
 		}
-		meta := make(map[string]string, numMeta)
+		// every entry takes at least two length fields: do not size the map for more than the header holds
+		meta := make(map[string]string, minUint64(numMeta, uint64(decoder.Remaining())/8))
 		for i := uint64(0); i < numMeta; i++ {
 			key, err := decoder.ReadString()
 			if err != nil {
@@ -171,7 +173,8 @@ func readHeader(reader io.ReaderAt) (map[[2]byte]uint64, map[string]string, int6
 		return nil, nil, 0, fmt.Errorf("failed to read numPrefixes: %w", err)
 	}
 	// prefix -> offset:
-	prefixToOffset := make(map[[2]byte]uint64, numPrefixes)
+	// every entry takes 10 bytes: do not size the map for more than the header holds
+	prefixToOffset := make(map[[2]byte]uint64, minUint64(numPrefixes, uint64(decoder.Remaining())/10))
 	for i := uint64(0); i < numPrefixes; i++ {
 		var prefix [2]byte
 		_, err := decoder.Read(prefix[:])
@@ -185,6 +188,13 @@ func readHeader(reader io.ReaderAt) (map[[2]byte]uint64, map[string]string, int6
 		prefixToOffset[prefix] = offset
 	}
 	return prefixToOffset, nil, headerSize + 4, err
+}
+
+func minUint64(a, b uint64) uint64 {
+	if a < b {
+		return a
+	}
+	return b
 }
 
 func (r *Reader) Has(sig [64]byte) (bool, error) {
